@@ -11,6 +11,8 @@ import RsddModel.Driver.CompStream
 import RsddModel.Driver.QueryStream
 import RsddModel.Driver.CnfStream
 import RsddModel.Driver.SerLines
+import RsddModel.Driver.FfiStream
+import RsddModel.Driver.CliStream
 /-!
 # Line-protocol driver
 
@@ -40,6 +42,8 @@ def judge (line : String) : String :=
     | "query" => checkQueryLine kvs rhs
     | "cnf" => checkCnfLine kvs rhs
     | "ser" => checkSerLine kvs rhs
+    | "ffi" => checkFfiLine kvs rhs
+    | "cli" => checkCliLine kvs rhs
     | _ => s!"FAIL PARSE unknown stream {stream}"
 
 partial def loop (h : IO.FS.Stream) : IO Unit := do
